@@ -320,17 +320,25 @@ macro_rules! cast_az_overflowing {
 // ---------------------------------------------------------------------------------------------
 //
 // CBMC cannot prove `f(x) == f(x)` for two separately bit-blasted copies of an f32 division or of
-// approx's relative comparison within minutes (measured: Vec2<f32>::inv > 300 s, relative_eq 117 s).
-// The per-element law does not depend on WHAT the scalar operation computes, only on it being a
-// deterministic function of its arguments. The harnesses marked "uf" therefore replace the scalar
-// trait method of the dependency (`<f32 as Inv>::inv`, `<f32 as AbsDiffEq>::abs_diff_eq`, ...) by
-// `uf`, an ARBITRARY deterministic function of the argument bit patterns: every call returns a fresh
-// nondeterministic value unless an earlier call had bit-identical arguments, in which case it
-// returns that call's value. A proof under this stub is a proof for every deterministic scalar
-// operation, in particular for the real one (which is pure and panic-free), on all f32 bit patterns
-// (NaN payloads, infinities, subnormals, signed zeros included).
+// approx's relative comparison in reasonable time (measured: Vec2<f32>::inv with the real `1.0 / x`
+// on both sides: no answer after 15 min with cadical and kissat; real relative_eq with symbolic
+// max_relative: 117 s for Vec2). The per-element law does not depend on WHAT the scalar operation
+// computes, only on it being a deterministic function of its arguments. The harnesses marked "uf"
+// therefore replace (kani::stub) the scalar trait method of the dependency (`<f32 as Inv>::inv`,
+// `<f32 as AbsDiffEq>::abs_diff_eq`, ...) by an ARBITRARY deterministic function of the argument
+// bit patterns:
+//   * the harness first "seeds" the model with the argument tuple of every lane (`$seed`): each seed
+//     draws a fresh nondeterministic result, unless an earlier seed had bit-identical arguments, in
+//     which case it re-uses that result (Ackermann's functional-consistency constraint);
+//   * the stub (`$look`) returns the seeded result for a seeded argument tuple and an unconstrained
+//     fresh value for any other tuple (strictly more behaviours than any deterministic function, so
+//     still sound; correct code never gets there, a mutant that mixes up arguments does).
+// A proof under this stub is a proof for every deterministic scalar operation, in particular for the
+// real one (which is pure and panic-free), on all f32 bit patterns (NaN payloads, infinities,
+// subnormals, signed zeros included). The table is only written by the straight-line seeding code, so
+// all indices are concrete and the model is loop-free (the scans are unrolled over literal slots).
 
-pub const UF_CAP: usize = 128;
+pub const UF_CAP: usize = 64;
 pub struct UfTable {
     n: usize,
     k0: [u32; UF_CAP],
@@ -341,19 +349,18 @@ pub struct UfTable {
 }
 pub static mut UF: UfTable = UfTable { n: 0, k0: [0; UF_CAP], k1: [0; UF_CAP], k2: [0; UF_CAP], k3: [0; UF_CAP], r: [0; UF_CAP] };
 
-/// Defines `$uf`: an arbitrary deterministic function ([u32; 4]) -> u32 usable for at most `$cap` calls per
-/// harness (asserted), plus the four scalar stubs built on it. Loop-free: the scan over the earlier calls
-/// is unrolled over the literal slot list. (Three capacities only to keep the small harnesses fast.)
+/// Defines a model with capacity `$cap` seeds: `$seed`, `$look` and the four scalar stubs built on `$look`.
+/// (Three capacities only to keep the small harnesses fast.)
 macro_rules! uf_family {
-    ($uf:ident, $inv:ident, $abs:ident, $rel:ident, $ulps:ident, cap $cap:literal, slots($($j:literal)+)) => {
-        pub fn $uf(k0: u32, k1: u32, k2: u32, k3: u32) -> u32 {
+    ($seed:ident, $look:ident, $inv:ident, $abs:ident, $rel:ident, $ulps:ident, cap $cap:literal, slots($($j:literal)+)) => {
+        pub fn $seed(k0: u32, k1: u32, k2: u32, k3: u32) {
             unsafe {
                 let t = &mut UF;
                 let n = t.n;
                 assert!(n < $cap);
                 let mut res: u32 = kani::any();
-                // every earlier call with bit-identical arguments holds the same value (by induction), so the
-                // scan order is irrelevant
+                // every earlier seed with bit-identical arguments holds the same value (by induction), so
+                // the scan order is irrelevant
                 $( if $j < n && t.k0[$j] == k0 && t.k1[$j] == k1 && t.k2[$j] == k2 && t.k3[$j] == k3 { res = t.r[$j]; } )+
                 t.k0[n] = k0;
                 t.k1[n] = k1;
@@ -361,26 +368,35 @@ macro_rules! uf_family {
                 t.k3[n] = k3;
                 t.r[n] = res;
                 t.n = n + 1;
+            }
+        }
+        pub fn $look(k0: u32, k1: u32, k2: u32, k3: u32) -> u32 {
+            unsafe {
+                let t = &UF;
+                let n = t.n;
+                let mut res: u32 = kani::any();
+                $( if $j < n && t.k0[$j] == k0 && t.k1[$j] == k1 && t.k2[$j] == k2 && t.k3[$j] == k3 { res = t.r[$j]; } )+
                 res
             }
         }
-        pub fn $inv(x: f32) -> f32 { f32::from_bits($uf(x.to_bits(), 0, 0, 0)) }
-        pub fn $abs(a: &f32, b: &f32, e: f32) -> bool { $uf(a.to_bits(), b.to_bits(), e.to_bits(), 0) & 1 == 1 }
-        pub fn $rel(a: &f32, b: &f32, e: f32, m: f32) -> bool { $uf(a.to_bits(), b.to_bits(), e.to_bits(), m.to_bits()) & 1 == 1 }
-        pub fn $ulps(a: &f32, b: &f32, e: f32, m: u32) -> bool { $uf(a.to_bits(), b.to_bits(), e.to_bits(), m) & 1 == 1 }
+        pub fn $inv(x: f32) -> f32 { f32::from_bits($look(x.to_bits(), 0, 0, 0)) }
+        pub fn $abs(a: &f32, b: &f32, e: f32) -> bool { $look(a.to_bits(), b.to_bits(), e.to_bits(), 0) & 1 == 1 }
+        pub fn $rel(a: &f32, b: &f32, e: f32, m: f32) -> bool { $look(a.to_bits(), b.to_bits(), e.to_bits(), m.to_bits()) & 1 == 1 }
+        pub fn $ulps(a: &f32, b: &f32, e: f32, m: u32) -> bool { $look(a.to_bits(), b.to_bits(), e.to_bits(), m) & 1 == 1 }
     };
 }
-uf_family! {uf8, uf8_f32_inv, uf8_f32_abs_diff_eq, uf8_f32_relative_eq, uf8_f32_ulps_eq, cap 8, slots(0 1 2 3 4 5 6 7)}
-uf_family! {uf32, uf32_f32_inv, uf32_f32_abs_diff_eq, uf32_f32_relative_eq, uf32_f32_ulps_eq, cap 32, slots(0 1 2 3 4 5 6 7 8 9 10 11 12 13 14 15 16 17 18 19 20 21 22 23 24 25 26 27 28 29 30 31)}
-uf_family! {uf128, uf128_f32_inv, uf128_f32_abs_diff_eq, uf128_f32_relative_eq, uf128_f32_ulps_eq, cap 128, slots(0 1 2 3 4 5 6 7 8 9 10 11 12 13 14 15 16 17 18 19 20 21 22 23 24 25 26 27 28 29 30 31 32 33 34 35 36 37 38 39 40 41 42 43 44 45 46 47 48 49 50 51 52 53 54 55 56 57 58 59 60 61 62 63 64 65 66 67 68 69 70 71 72 73 74 75 76 77 78 79 80 81 82 83 84 85 86 87 88 89 90 91 92 93 94 95 96 97 98 99 100 101 102 103 104 105 106 107 108 109 110 111 112 113 114 115 116 117 118 119 120 121 122 123 124 125 126 127)}
+uf_family! {uf4_seed, uf4_look, uf4_f32_inv, uf4_f32_abs_diff_eq, uf4_f32_relative_eq, uf4_f32_ulps_eq, cap 4, slots(0 1 2 3)}
+uf_family! {uf16_seed, uf16_look, uf16_f32_inv, uf16_f32_abs_diff_eq, uf16_f32_relative_eq, uf16_f32_ulps_eq, cap 16, slots(0 1 2 3 4 5 6 7 8 9 10 11 12 13 14 15)}
+uf_family! {uf64_seed, uf64_look, uf64_f32_inv, uf64_f32_abs_diff_eq, uf64_f32_relative_eq, uf64_f32_ulps_eq, cap 64, slots(0 1 2 3 4 5 6 7 8 9 10 11 12 13 14 15 16 17 18 19 20 21 22 23 24 25 26 27 28 29 30 31 32 33 34 35 36 37 38 39 40 41 42 43 44 45 46 47 48 49 50 51 52 53 54 55 56 57 58 59 60 61 62 63)}
 
 /// Inv::inv on a float vector against the uninterpreted scalar inv.
 macro_rules! lift_inv_uf {
-    ($h:ident, $V:ident<f32> ($($f:tt)+), $inv:ident) => {
+    ($h:ident, $V:ident<f32> ($($f:tt)+), $seed:ident, $inv:ident) => {
         #[kani::proof]
         #[kani::stub(<f32 as Inv>::inv, $inv)]
         fn $h() {
             let a = any_vec!($V<f32> ($($f)+));
+            $( $seed(a.$f.to_bits(), 0, 0, 0); )+
             let r = Inv::inv(a);
             assert!(true $(&& Same::same(r.$f, Inv::inv(a.$f)))+);
         }
@@ -390,7 +406,8 @@ macro_rules! lift_inv_uf {
 /// approx on any aggregate, against the uninterpreted scalar predicates.
 /// `$acc` are accessor token groups: `(.x)`, `(.0)`, `([(1,2)])`, ...; `$mk` makes a fully symbolic value.
 macro_rules! approx_uf {
-    ($h_abs:ident, $h_rel:ident, $h_ulps:ident, $Ty:ty, $mk:expr, [$(($($acc:tt)+))+], stubs($abs:ident, $rel:ident, $ulps:ident) $(, unwind $u:literal)?) => {
+    ($h_abs:ident, $h_rel:ident, $h_ulps:ident, $Ty:ty, $mk:expr, [$(($($acc:tt)+))+],
+     stubs($seed:ident, $abs:ident, $rel:ident, $ulps:ident) $(, unwind $u:literal)?) => {
         #[kani::proof]
         $(#[kani::unwind($u)])?
         #[kani::stub(<f32 as AbsDiffEq>::abs_diff_eq, $abs)]
@@ -398,6 +415,7 @@ macro_rules! approx_uf {
             let a: $Ty = $mk;
             let b: $Ty = $mk;
             let eps: f32 = kani::any();
+            $( $seed((a $($acc)+).to_bits(), (b $($acc)+).to_bits(), eps.to_bits(), 0); )+
             let r = AbsDiffEq::abs_diff_eq(&a, &b, eps);
             assert!(r == (true $(&& AbsDiffEq::abs_diff_eq(&a $($acc)+, &b $($acc)+, eps))+));
         }
@@ -409,6 +427,7 @@ macro_rules! approx_uf {
             let b: $Ty = $mk;
             let eps: f32 = kani::any();
             let max_rel: f32 = kani::any();
+            $( $seed((a $($acc)+).to_bits(), (b $($acc)+).to_bits(), eps.to_bits(), max_rel.to_bits()); )+
             let r = RelativeEq::relative_eq(&a, &b, eps, max_rel);
             assert!(r == (true $(&& RelativeEq::relative_eq(&a $($acc)+, &b $($acc)+, eps, max_rel))+));
         }
@@ -420,6 +439,7 @@ macro_rules! approx_uf {
             let b: $Ty = $mk;
             let eps: f32 = kani::any();
             let max_ulps: u32 = kani::any();
+            $( $seed((a $($acc)+).to_bits(), (b $($acc)+).to_bits(), eps.to_bits(), max_ulps); )+
             let r = UlpsEq::ulps_eq(&a, &b, eps, max_ulps);
             assert!(r == (true $(&& UlpsEq::ulps_eq(&a $($acc)+, &b $($acc)+, eps, max_ulps))+));
         }
